@@ -4,6 +4,7 @@ from fractions import Fraction
 from sa.algebra import Rat, Translator, AlgebraError, parse_expr
 from sa.srcmodel import own_nodes, dotted, positional_params, func_params, clone
 from sa.report import AnalysisError
+from sa.pattern import has, flat
 
 EXPLANATION = (
     "The property is about data content, so only the plumbing is decided. (1) count_data_dict is executed abstractly, once per "
@@ -428,7 +429,7 @@ def check_from_count_dict(rep, prog):
     # from_data_dict forwarding
     fd = prog.func(SM, 'Spectrum.from_data_dict')
     t = ast.unparse(fd)
-    okd = 'cd = dadi.Misc.count_data_dict(data_dict, pop_ids)' in t and re.search(r'Spectrum\._from_count_dict\(cd, projections, polarized, pop_ids, mask_corners=mask_corners\)', t) is not None
+    okd = has(t, 'cd = dadi.Misc.count_data_dict(data_dict, pop_ids)') and has(t, 'Spectrum._from_count_dict(cd, projections, polarized, pop_ids, mask_corners=mask_corners)')
     ps = func_params(prog.func(SM, 'Spectrum._from_count_dict'))
     okd = okd and ps[:4] == ['count_dict', 'projections', 'polarized', 'pop_ids']
     rep.ob('R-ARGS', 'Spectrum.from_data_dict forwarding', okd, 'count_data_dict(data_dict, pop_ids) -> _from_count_dict(cd, projections, polarized, pop_ids, mask_corners=)', m.rel, fd.lineno,
@@ -442,8 +443,8 @@ def check_fragment(rep, prog):
     rep.saw_function(m.rel + ':fragment_data_dict')
     t = ast.unparse(fn)
     # parser
-    okp = "chrname, position = ('_'.join(k.split('_')[:-1]), k.split('_')[-1])" in t and "position, add_info = position.split('.', 1)" in t and \
-        "ndd[chrname].append((int(position), add_info))" in t and re.search(r"if not '\.' in position:\n\s+add_info = None", t) is not None
+    okp = has(t, "chrname, position = ('_'.join(k.split('_')[:-1]), k.split('_')[-1])") and has(t, "position, add_info = position.split('.', 1)") and \
+        has(t, "ndd[chrname].append((int(position), add_info))") and has(t, "if not '.' in position:\n    add_info = None")
     rep.ob('R-TPL', 'fragment_data_dict key parser', okp, "chromosome = everything before the last '_'; position[.info] after it, info split at the first '.'", m.rel, fn.lineno,
            what="keys are parsed as chromosome_position[.info] with '_' and '.' allowed in the chromosome name")
     # printer (inverse)
@@ -453,7 +454,7 @@ def check_fragment(rep, prog):
     guard = [n for n in own_nodes(fn) if isinstance(n, ast.If) and ast.unparse(n.test) == 'not add_info']
     okf = okf and len(guard) == 1 and '{0}_{1}' == [c.func.value.value for c in ast.walk(guard[0].body[0]) if isinstance(c, ast.Call) and isinstance(c.func, ast.Attribute) and c.func.attr == 'format'][0]
     rep.ob('R-TPL', 'fragment_data_dict key printer', okf, 'formats %s' % got, m.rel, fn.lineno, what='the key is rebuilt with the separators the parser split at (inverse of the parser)')
-    okv = 'new_dds[-1][key] = dd[key]' in t
+    okv = has(t, 'new_dds[-1][key] = dd[key]')
     rep.ob('R-FLOW', 'fragment_data_dict values', okv, 'new_dds[-1][key] = dd[key]', m.rel, fn.lineno, what='each SNP record is copied under its own key')
     # exactly once + chunk index pairing
     fl = [n for n in own_nodes(fn) if isinstance(n, ast.For) and ast.unparse(n.iter) == 'positions']
@@ -472,25 +473,25 @@ def check_fragment(rep, prog):
     ok0 = len(outer) == 1 and [ast.unparse(s) for s in outer[0].body[:4]] == ['positions = sorted(ndd[chrname])', 'end = chunk_size', 'chunk_index = 0', 'chunks_dict[chrname].append([])']
     rep.ob('R-PAIR', 'fragment_data_dict chunk assignment', ok1 and ok0, det or 'position loop not recognised', m.rel, fn.lineno,
            what='every SNP lands in exactly one chunk; the chunk index always points at the last chunk created; positions are visited in sorted order')
-    okr = 'for (chrname, chunks) in chunks_dict.items():' in t.replace('for chrname, chunks in', 'for (chrname, chunks) in') and 'for pos_list in chunks:' in t and 'new_dds.append({})' in t and \
-        re.search(r'for \(?pos, add_info\)? in pos_list:', t) is not None and t.rstrip().endswith('return new_dds')
+    okr = has(t, 'for (chrname, chunks) in chunks_dict.items():') and has(t, 'for pos_list in chunks:') and has(t, 'new_dds.append({})') and \
+        has(t, 'for pos, add_info in pos_list:') and flat(t).endswith(flat('return new_dds'))
     rep.ob('R-FLOW', 'fragment_data_dict output', okr, 'one dictionary per chunk, all chunks of all chromosomes', m.rel, fn.lineno, what='the chunk dictionaries partition the input')
     # bootstraps
     bf = prog.func(MISC, 'bootstraps_from_dd_chunks')
     rep.saw_function(m.rel + ':bootstraps_from_dd_chunks')
     tb = ast.unparse(bf)
-    okb = 'spectra = [Spectrum.from_data_dict(dd, pop_ids, projections, mask_corners, polarized) for dd in fragments]' in tb and 'for ii in range(Nboot):' in tb and \
-        'chosen = random.choices(spectra, k=len(spectra))' in tb and 'bootstraps.append(functools.reduce(operator.add, chosen))' in tb
+    okb = has(tb, 'spectra = [Spectrum.from_data_dict(dd, pop_ids, projections, mask_corners, polarized) for dd in fragments]') and has(tb, 'for ii in range(Nboot):') and \
+        has(tb, 'chosen = random.choices(spectra, k=len(spectra))') and has(tb, 'bootstraps.append(functools.reduce(operator.add, chosen))')
     fdp = func_params(prog.func(SM, 'Spectrum.from_data_dict'))
     okb = okb and fdp[:5] == ['data_dict', 'pop_ids', 'projections', 'mask_corners', 'polarized']
     rep.ob('R-TPL', 'bootstraps_from_dd_chunks resampling', okb, 'Nboot times: len(spectra) chunk spectra drawn with replacement and added', m.rel, bf.lineno,
            what='a bootstrap is the sum of as many chunk spectra as there are chunks')
-    okw = "Spectrum(_, mask_corners=mask_corners, data_folded=not polarized, pop_ids=pop_ids)" in tb
+    okw = has(tb, "Spectrum(_, mask_corners=mask_corners, data_folded=not polarized, pop_ids=pop_ids)")
     rep.ob('R-TPL', 'bootstraps_from_dd_chunks wrapping', okw, 'bootstraps carry folding status and labels', m.rel, bf.lineno, what='folded iff unpolarised; population labels kept')
     bs = prog.func(MISC, 'bootstraps_subsample_vcf')
     ts = ast.unparse(bs)
-    oks = 'projections = [subsample[pop] * 2 for pop in pop_ids]' in ts and 'fragments = fragment_data_dict(dd, chunk_size)' in ts and \
-        'bootstraps_from_dd_chunks(fragments, 1, pop_ids, projections, mask_corners, polarized)[0]' in ts and 'subsample=subsample' in ts
+    oks = has(ts, 'projections = [subsample[pop] * 2 for pop in pop_ids]') and has(ts, 'fragments = fragment_data_dict(dd, chunk_size)') and \
+        has(ts, 'bootstraps_from_dd_chunks(fragments, 1, pop_ids, projections, mask_corners, polarized)[0]') and has(ts, 'subsample=subsample')
     rep.ob('R-TPL', 'bootstraps_subsample_vcf', oks, 'a fresh subsample per bootstrap, projections = 2*individuals', m.rel, bs.lineno, what='projection equals the subsampled chromosome number (no further projection)')
 
 
@@ -501,17 +502,17 @@ def check_parsers(rep, prog):
     rep.saw_function(m.rel + ':make_data_dict_vcf')
     t = ast.unparse(fn)
     # allele order == call order
-    oko = "snp_dict['segregating'] = (ref, alt)" in t and t.count("refcalls += gt[::2].count('0')") == 2 and t.count("altcalls += gt[::2].count('1')") == 2 and \
+    oko = has(t, "snp_dict['segregating'] = (ref, alt)") and t.count("refcalls += gt[::2].count('0')") == 2 and t.count("altcalls += gt[::2].count('1')") == 2 and \
         t.count('calls_dict[pop] = (refcalls, altcalls)') == 2 and t.count('refcalls, altcalls = calls_dict[pop]') == 2
     rep.ob('R-IDX', 'make_data_dict_vcf allele order', oko, "segregating = (ref, alt); calls = (count of '0', count of '1')", m.rel, fn.lineno, what="calls are stored in the order of 'segregating'")
     # outgroup
-    okg = re.search(r"for field in info:\n\s+if field\.startswith\('AA='\)", t) is not None and "outgroup_allele = field.split('=')[1].upper().split('|')[0]" in t and \
-        "snp_dict['outgroup_allele'] = outgroup_allele" in t and re.search(r"else:\n\s+outgroup_allele = '-'\n\s+snp_dict\['outgroup_allele'\]", t) is not None and \
-        re.search(r"if outgroup_allele not in \['A', 'C', 'G', 'T'\]:\n\s+outgroup_allele = '-'", t) is not None
+    okg = has(t, "for field in info:\n    if field.startswith('AA=') or field.startswith('AA_ensembl=') or field.startswith('AA_chimp='):\n        outgroup_allele = field.split('=')[1].upper().split('|')[0]") and has(t, "outgroup_allele = field.split('=')[1].upper().split('|')[0]") and \
+        has(t, "snp_dict['outgroup_allele'] = outgroup_allele") and flat("else:outgroup_allele='-'snp_dict['outgroup_allele']") in flat(t) and \
+        has(t, "if outgroup_allele not in ['A', 'C', 'G', 'T']:\n    outgroup_allele = '-'")
     rep.ob('R-DEF', 'make_data_dict_vcf outgroup', okg, "outgroup allele from AA=, '-' when absent or not a single base (for/else)", m.rel, fn.lineno,
            what="every SNP gets an outgroup allele of its own line ('-' when missing), never the previous line's")
-    okf = re.search(r"if filter and cols\[6\] != 'PASS' and \(?cols\[6\] != '\.'\)?:\n\s+continue", t) is not None and \
-        re.search(r"if ref not in \['A', 'C', 'G', 'T'\] or alt not in \['A', 'C', 'G', 'T'\]:\n\s+continue", t) is not None
+    okf = has(t, "if filter and cols[6] != 'PASS' and cols[6] != '.':\n    continue") and \
+        has(t, "if ref not in ['A', 'C', 'G', 'T'] or alt not in ['A', 'C', 'G', 'T']:\n    continue")
     rep.ob('R-DOM', 'make_data_dict_vcf filters', okf, 'filtered lines and non single-base alleles are skipped before anything is stored', m.rel, fn.lineno, what='only biallelic single-base SNPs that pass the filter are stored')
     # subsampling
     loops = [n for n in own_nodes(fn) if isinstance(n, ast.For) and ast.unparse(n.iter) == 'subsample_dict.items()']
@@ -541,8 +542,8 @@ def check_parsers(rep, prog):
     f2 = prog.func(MISC, 'make_data_dict')
     rep.saw_function(m.rel + ':make_data_dict')
     t2 = ast.unparse(f2)
-    ok2 = "data_this_snp['segregating'] = (spl[2].upper(), spl[allele2_index].upper())" in t2 and 'calls_dict[pop] = (int(spl[3 + ii]), int(spl[allele2_index + 1 + ii]))' in t2 and \
-        "pops = header.split()[3:allele2_index]" in t2 and "data_this_snp['outgroup_allele'] = spl[1][1].upper()" in t2 and "allele2_index = header.split().index('Allele2')" in t2
+    ok2 = has(t2, "data_this_snp['segregating'] = (spl[2].upper(), spl[allele2_index].upper())") and has(t2, 'calls_dict[pop] = (int(spl[3 + ii]), int(spl[allele2_index + 1 + ii]))') and \
+        has(t2, "pops = header.split()[3:allele2_index]") and has(t2, "data_this_snp['outgroup_allele'] = spl[1][1].upper()") and has(t2, "allele2_index = header.split().index('Allele2')")
     rep.ob('R-IDX', 'make_data_dict columns', ok2, 'allele1 at column 2 with its counts at 3.., allele2 at the Allele2 column with its counts after it', m.rel, f2.lineno,
            what="calls are stored in the order of 'segregating'; the outgroup allele is the middle base of the outgroup context")
 
@@ -755,11 +756,11 @@ def check_statistics(rep, prog, tier):
     fn = prog.func(SM, 'Spectrum.Fst')
     rep.saw_function(m.rel + ':Spectrum.Fst')
     tf = ast.unparse(fn)
-    okc = 'counts_per_pop = numpy.indices(self.shape)' in tf and 'counts_per_pop = numpy.transpose(counts_per_pop, axes=list(range(1, r + 1)) + [0])' in tf and \
-        'this_slice = [slice(None)] * r + [numpy.newaxis]' in tf
+    okc = has(tf, 'counts_per_pop = numpy.indices(self.shape)') and has(tf, 'counts_per_pop = numpy.transpose(counts_per_pop, axes=list(range(1, r + 1)) + [0])') and \
+        has(tf, 'this_slice = [slice(None)] * r + [numpy.newaxis]')
     rep.ob('R-IDX', 'Spectrum.Fst frequencies', okc, 'counts_per_pop[i1..ir] = (i1..ir) on the last axis; pbar aligned by a trailing new axis', m.rel, fn.lineno,
            what='per-population allele counts are the entry indices')
-    okw = 'asum = (self * a).sum()' in tf and 'dsum = (self * d).sum()' in tf and tf.rstrip().endswith('return asum / (asum + dsum)')
+    okw = has(tf, 'asum = (self * a).sum()') and has(tf, 'dsum = (self * d).sum()') and tf.rstrip().endswith('return asum / (asum + dsum)')
     rep.ob('R-ALG', 'Spectrum.Fst combination', okw, 'sum_loci a / sum_loci (a + c) weighted by the spectrum', m.rel, fn.lineno, what='ratio of sums over SNPs (W&C eq 10)')
     for r in ((2, 3) if tier == 'thorough' else (2,)):
         ok = False
